@@ -72,16 +72,13 @@ pub fn replay(cx: &Cx, case: &Value) -> Verdict {
     }
 }
 
-/// regenerates the case a worker thread was executing (crash / hang forensics); None if the property's streams
-/// are not regenerable
+/// regenerates the case a worker thread was executing (crash / hang forensics): the property's own run is executed in
+/// regeneration mode (see run::regen_via_run); enumerated streams have their own decoders
 pub fn regen(cx: &Cx, shard: usize, stream: u64, index: u64) -> Option<Value> {
-    match cx.prop {
-        "C02" => derived::regen_c02(cx, shard, stream, index),
-        "C05" => faults::regen_c05(cx, shard, stream, index),
-        "C09" => dedup::regen_c09(cx, shard, stream, index),
-        "C16" => compressed::regen_c16(cx, shard, stream, index),
-        "C19" => safety::regen_c19(cx, shard, stream, index),
-        "C06" => faults::regen_c06(cx, shard, stream, index),
-        _ => None,
+    if cx.prop == "C05" && stream == 0 {
+        return faults::regen_c05(cx, shard, stream, index);
     }
+    crate::run::regen_via_run(shard, stream, index, || {
+        let _ = run(cx);
+    })
 }
